@@ -6,4 +6,9 @@ setup:
 	# warm the Go build cache with one harness build (also proves the overlay pipeline works offline)
 	bin/check build c01 >/dev/null
 
-.PHONY: setup
+# litmus suite of the scheduler and shims (expected outcome sets)
+litmus:
+	bin/check build litmus >/dev/null
+	.build/manual/harness-litmus
+
+.PHONY: setup litmus
